@@ -434,6 +434,9 @@ def report(h, pid, a, seed, scen, idx, results, wall):
         if len(samples) < 6 and r.get("paths"):
             samples.append(dict(scenario=r["desc"], paths=r["paths"], decisions=r.get("decisions"),
                                 obligations=r.get("obligations"), example_obligations=r.get("samples", [])))
+    if os.environ.get("VERIF_TIMING"):
+        for r in sorted(results, key=lambda r: -r.get("wall", 0))[:12]:
+            print(f"timing: {r.get('wall', 0):6.1f}s paths={r.get('paths')} inconcl={r.get('n_inconclusive')} {json.dumps(r['desc'], default=str)[:260]}")
     violations, known_hits, unrepro = [], [], []
     for fl in failures:
         if fl.get("replay") != "reproduced":
